@@ -602,3 +602,74 @@ Proof.
       assert (Hg : f_offset g < sum_tv cfg ents) by (apply FO; auto; apply InF; apply in_or_app; auto).
       rewrite A2, Q3 in G4. rewrite Hov in *. lia.
 Qed.
+
+Lemma index_tx_total_cb : forall cfg h t L K fees b,
+  TM cfg h L K fees b -> K <= I32_LIMIT -> tx_cb t -> t_id t <> 0 ->
+  sum_values (t_outs t) <= subsidy h + fees ->
+  exists b', index_tx cfg h true true t b = Ok b' /\ TI b' /\
+    Led cfg (ledger_put (t_id t) 0 (t_outs t) L) (s_utxo (b_st b')) /\ b_next b' <= K.
+Proof.
+  intros cfg h t L K fees b [MT MK ML MC MR MB MP] HB HCB Hz HV.
+  destruct MT as [TD TV TX TK TC].
+  unfold index_tx. cbn [bind].
+  assert (HSp : exists per_out in_ranges b1,
+     (if c_sats cfg
+      then do '(per_out, lft) <- split_sats (t_outs t) (b_cb_ranges b);
+           Ok (per_out, Some (b_cb_ranges b),
+               mkB (b_st b) (b_flot b) (b_reward b) (b_lost b) (b_blessed b) (b_cursed b) (b_unb b) (b_next b) (b_cb_ranges b) (b_lost_ranges b ++ lft))
+      else Ok ([], None, b)) = Ok (per_out, in_ranges, b1) /\
+     b_st b1 = b_st b /\ b_flot b1 = b_flot b /\ b_reward b1 = b_reward b /\ b_next b1 = b_next b /\
+     b_blessed b1 = b_blessed b /\ b_cursed b1 = b_cursed b /\
+     (c_sats cfg = true -> Forall2 (fun o m => ranges_size m = o_value o) (t_outs t) per_out) /\
+     (forall rs, in_ranges = Some rs -> ranges_size rs = b_reward b)).
+  { destruct (c_sats cfg) eqn:S.
+    - destruct (split_sats_total (t_outs t) (b_cb_ranges b)) as ([po lft] & E); [rewrite (MB eq_refl), MR; lia|].
+      rewrite E. cbn [bind]. do 3 eexists. split; [reflexivity|]. cbn. repeat split; auto.
+      + intros _. eapply split_sats_sizes; eauto.
+      + intros rs Hr. inv Hr. apply MB. reflexivity.
+    - do 3 eexists. split; [reflexivity|]. repeat split; auto; try discriminate. }
+  destruct HSp as (per_out & in_ranges & b1 & -> & Q1 & Q2 & Q3 & Q4 & Q5 & Q6 & HSz & HIr). cbn [bind].
+  set (utxo2 := put_outputs cfg (t_id t) 0 (t_outs t) per_out (s_utxo (b_st b))).
+  set (b2 := set_st b1 (with_utxo (b_st b) utxo2)).
+  assert (HK2 : forall op u s0 off, tgP op utxo2 = Some u -> In (s0, off) (u_insc u) -> tgN s0 (s_entries (b_st b)) <> None).
+  { intros op u s0 off Hu Hp. subst utxo2. apply put_outputs_tg in Hu. destruct Hu as [[_ Hu]|Hu]; [rewrite Hu in Hp; destruct Hp|]. eapply TK; eauto. }
+  assert (L2 : Led cfg (ledger_put (t_id t) 0 (t_outs t) L) utxo2) by (apply put_outputs_led; auto).
+  destruct (floating_of_total_cb cfg (with_utxo (b_st b) utxo2) h t [] HCB) as (tiv & EF).
+  unfold index_inscriptions. fold b2. change (b_st b2) with (with_utxo (b_st b) utxo2). rewrite EF. cbn [bind app].
+  rewrite (cb_is_coinbase t HCB).
+  assert (Fl2 : b_flot b2 = b_flot b) by (subst b2; unfold set_st; cbn; exact Q2). rewrite Fl2.
+  destruct (assign (t_id t) 0 0 (t_outs t) (sort_by f_offset (b_flot b))) as [[locs rest] ov] eqn:EA.
+  pose proof (assign_split _ _ _ _ _ _ _ _ EA) as ESplit.
+  assert (AS0 : Forall (fun f => 0 <= f_offset f) (sort_by f_offset (b_flot b))) by (apply Forall_forall; intros; lia).
+  destruct (assign_spec (t_id t) (t_outs t) 0 0 _ locs rest ov (sort_by_sorted f_offset (b_flot b)) AS0 EA) as (Hov & Hrest & HLoc).
+  rewrite N.add_0_l in Hov.
+  assert (PM : Permutation (map loc_flot locs ++ rest) (b_flot b)) by (rewrite <- ESplit; apply sort_by_perm).
+  assert (InF : forall f, In f (map loc_flot locs ++ rest) -> In f (b_flot b)) by (intros f Hf; eapply Permutation_in; eauto).
+  assert (NN : nnew (b_flot b) = nnew (map loc_flot locs) + nnew rest) by (rewrite <- nnew_app; symmetry; apply nnew_perm; exact PM).
+  assert (T0 : TI (set_flot b2 [])).
+  { split; subst b2; unfold set_flot, set_st, with_utxo; cbn [b_st b_next b_blessed b_cursed s_entries s_id2seq s_utxo]; rewrite ?Q4, ?Q5, ?Q6; auto. }
+  assert (HC : forall f, In f (b_flot b) -> calc_ok in_ranges f).
+  { intros f Hf rs Hr Hn Hu. rewrite (HIr rs Hr). apply MP; auto. }
+  destruct (apply_locs_total h in_ranges locs (set_flot b2 []) T0) as (b3 & EL & T3 & K3).
+  { subst b2. unfold set_flot, set_st. cbn [b_next]. rewrite Q4. lia. }
+  { intros f s0 Hf Ho. cbn [set_flot b_st]. subst b2. cbn [set_st b_st with_utxo s_entries]. eapply MK; [apply InF; apply in_or_app; left; exact Hf|exact Ho]. }
+  { intros f Hf. apply HC. apply InF. apply in_or_app. auto. }
+  rewrite EL. cbn [bind].
+  pose proof (apply_locs_next _ _ _ _ _ EL) as NX3. cbn [set_flot b_next] in NX3.
+  assert (NX2 : b_next b2 = b_next b) by (subst b2; unfold set_st; cbn; exact Q4).
+  destruct (apply_lost_total h in_ranges ov rest b3 T3) as (b4 & ELo & T4 & K4).
+  { rewrite NX3, NX2. lia. }
+  { exact Hrest. }
+  { intros f s0 Hf Ho. apply K3. cbn [set_flot b_st]. subst b2. cbn [set_st b_st with_utxo s_entries]. eapply MK; [apply InF; apply in_or_app; right; exact Hf|exact Ho]. }
+  { intros f Hf. apply HC. apply InF. apply in_or_app. auto. }
+  rewrite ELo. cbn [bind].
+  pose proof (apply_locs_aux _ _ _ _ _ EL) as (_ & A2 & _).
+  pose proof (apply_lost_aux _ _ _ _ _ _ ELo) as (_ & B2 & _).
+  assert (RW : b_reward b4 = b_reward b).
+  { rewrite B2, A2. subst b2. unfold set_flot, set_st. cbn. exact Q3. }
+  unfold csub. rewrite RW, MR. destruct (N.leb_spec ov (subsidy h + fees)) as [_|Hbad]; [|lia]. cbn [bind].
+  eexists. split; [reflexivity|]. cbn [b_st b_next]. split; [|split].
+  - eapply TI_ext; [| | | | | |exact T4]; try reflexivity. intros op u s0 off Hu Hp. destruct T4 as [_ _ _ TK4 _]. eapply TK4; eauto.
+  - eapply apply_lost_led; [|exact ELo]. eapply apply_locs_led; [|exact EL]. subst b2. cbn [set_flot set_st b_st with_utxo s_utxo]. exact L2.
+  - rewrite (apply_lost_next _ _ _ _ _ _ ELo), NX3, NX2. lia.
+Qed.
